@@ -390,15 +390,19 @@ fn ctap_level(rep: &mut Report, seed: u64, idx: u64) {
             by = Some(m);
         }
         let uv_req = verified && rng.bool();
-        let req = ga_request("example.com", &[2u8; 32], Some(vec![descriptor(&id)]), Some(get_assertion::ExtensionInputs { hmac_secret: None, prf: Some(AuthenticatorPrfInputs { eval: default_eval.clone(), eval_by_credential: by.clone() }) }), true, uv_req);
-        let case = json!({"index": idx, "level": "ctap", "step": format!("get#{g}"), "config": cfg.json(), "default_eval": default_eval.is_some(), "per_credential_for_used": own.is_some(), "per_credential_map": by.is_some(), "uv_requested": uv_req, "user_verified": verified});
+        // a quarter of the assertions do not ask for presence; the method then reports presence or not
+        let up_req = !rng.chance(1, 4);
+        let present = up_req || rng.bool();
+        rig.uv.set_outcome(UvOutcome::Check { presence: present, verification: verified });
+        let req = ga_request("example.com", &[2u8; 32], Some(vec![descriptor(&id)]), Some(get_assertion::ExtensionInputs { hmac_secret: None, prf: Some(AuthenticatorPrfInputs { eval: default_eval.clone(), eval_by_credential: by.clone() }) }), up_req, uv_req);
+        let case = json!({"index": idx, "level": "ctap", "step": format!("get#{g}"), "config": cfg.json(), "default_eval": default_eval.is_some(), "per_credential_for_used": own.is_some(), "per_credential_map": by.is_some(), "uv_requested": uv_req, "user_verified": verified, "up_requested": up_req, "presence_reported": present});
         let before = rig.store.snapshot();
         let Ok(resp) = block_on(auth.get_assertion(req)) else {
             rep.count("ctap_get_err");
             continue;
         };
         let out = resp.unsigned_extension_outputs.as_ref().and_then(|u| u.prf.as_ref());
-        rep.nontrivial(fnv_str(&format!("ctap-get|{:?}|{}|{}|{}|{uv_req}|{verified}", cfg.hmac, default_eval.is_some(), own.is_some(), by.is_some())));
+        rep.nontrivial(fnv_str(&format!("ctap-get|{:?}|{}|{}|{}|{uv_req}|{verified}|{up_req}|{present}", cfg.hmac, default_eval.is_some(), own.is_some(), by.is_some())));
         if !capability {
             if out.is_some() {
                 rep.violate("ctap: PRF output from an authenticator without the capability (authentication)", String::new(), case.clone());
@@ -473,6 +477,7 @@ fn gen_history(rng: &mut Rng) -> Vec<Op> {
             exclude: None,
             uv_outcome: uv_out(rng),
             attestation: 0,
+            misc: 0,
         }));
     }
     let n_auth = rng.range(2, 6);
